@@ -23,6 +23,14 @@ Thorough tier additionally compiles the avoided matrix cells ("unrestricted"):
 a failure there must carry a mechanism listed by an open finding, otherwise
 it is a violation (new mechanism hidden behind an avoided construct).
 
+Three open findings have a trigger that is an allocator state, not an IR
+construct (re-spilling of spill temporaries, a coalesced self-move met by
+freeze, a spill in a thumb frame beyond 255 bytes).  Their avoid switches sit
+at the trigger: harness wrappers of rewrite_program / freeze_moves abandon the
+function (discarded, counted) before the defective code runs; the verdict
+never inspects what the defect would have raised.  A compilation exceeding
+the per-call watchdog (SIGALRM) is discarded and counted, never judged.
+
 Narrowing (stated): exceptions raised by ``optimize`` itself are counted and
 discarded (C03 judges passes); "every level" = 0,1,2,s -- the quick tier
 compiles each matrix cell at level 0 and one rotating other level.
@@ -37,8 +45,8 @@ LEVELS = ["0", "1", "2", "s"]
 BATCH = 40
 
 RULE = ("for each of x86_64, arm, arm:thumb, riscv, riscv:rvc: the vlib.cgmatrix matrix (every binop/unop/compare/cast "
-        "for every type in arch.info.value_classes x operand source {param, const 0/small/large/negative, local load, "
-        "global load, other op} x consumer {return, store, compare, call argument}; loads/stores over addressing forms, "
+        "for every type in arch.info.value_classes x operand source {param, const 0/small/large/negative/minimum, local "
+        "load, global load, other op} x consumer {return, store, compare, call argument}; loads/stores over addressing forms, "
         "offsets and frame sizes; argument positions 1..10 caller/callee; phi/loop/undefined/blob/indirect-call/"
         "pressure functions) and vlib.irgen random modules with pressure post-pass, each through "
         "ppci.api.optimize(level) and ppci.api.ir_to_object; quick = 1/8 slice of the matrix (rotating with the seed) "
@@ -216,15 +224,15 @@ def plan(tier, seed, avoid):
             for part in range(2):
                 specs.append({"part": "unrestricted", "target": t, "sub": part, "nsub": 2})
             for s in range(0, 2000, 100):
-                specs.append({"part": "random", "target": t, "start": s, "count": 100, "levels": "all"})
+                specs.append({"part": "random", "target": t, "start": s, "count": 100, "levels": "rot"})
     return specs
 
 
 def floors(tier):
     if tier == "quick":
         return {"evaluations": 8000, "observed.targets": 5, "observed.random_modules_compiled": 150,
-                "observed.levels": 4, "observed.spill_or_pressure_functions": 20}
-    return {"evaluations": 150000, "observed.targets": 5, "observed.random_modules_compiled": 10000,
+                "observed.levels": 4, "observed.spill_or_pressure_functions": 200}
+    return {"evaluations": 150000, "observed.targets": 5, "observed.random_modules_compiled": 8000,
             "observed.levels": 4, "observed.unrestricted_cells": 1000}
 
 
